@@ -21,7 +21,7 @@ RULE = (
     'identical class - also when made in another thread -, flattened() must keep the leaves and their order, also when the same failure object or nested group occurs more than once in the tree. non-trivial = pair with '
     '>= 2 distinct child types or a nested child; distinct = (raised types, handler)'
 )
-RULE = RULE + (' Further: the empty multiset / Concurrent[()], `...` in every position, identity across simulations and threads, classes with colliding hashes, leaves with group-like attributes or a false truth value.')
+RULE = RULE + (' Further: the empty multiset / Concurrent[()], `...` in every position, identity across simulations and threads, classes with colliding hashes, a class with two unrelated bases, leaves with group-like attributes or a false truth value.')
 
 LEVEL_TEXT = (
     'Exhaustive runtime comparison of the real isinstance / issubclass / except behaviour with '
@@ -90,8 +90,14 @@ class MetaLeaf(Mid, metaclass=abc.ABCMeta):
     """an exception class whose metaclass is not plain `type` (e.g. one that mixes in an ABC)"""
 
 
-QUICK_CLASSES = [Base, Mid, Leaf, Sib, Other, LeafTwin, MetaLeaf, Exception]
-THOROUGH_CLASSES = [Base, Mid, Leaf, Sib, Sib2, Other, OtherLeaf, LeafTwin, MetaLeaf, Exception]
+class Both(Sib, Other):
+    """a class with two unrelated bases (a ``ConfigKeyError(ConfigError, KeyError)``): one child
+    of it is a witness for either base - and for both of them in one handler"""
+
+
+QUICK_CLASSES = [Base, Mid, Leaf, Sib, Other, LeafTwin, MetaLeaf, Both, Exception]
+THOROUGH_CLASSES = [Base, Mid, Leaf, Sib, Sib2, Other, OtherLeaf, LeafTwin, MetaLeaf, Both,
+                    Exception]
 
 
 def atoms(tier):
